@@ -6,24 +6,18 @@
 From PG Require Import Lib.Strs Model.Sites Model.Diff Model.Render Proofs.Render.
 From Coq Require Import Permutation.
 
-(* C19_keys, full statement (FALSE, see C19_refuted_F07b):
-     forall d, parse_doc (retype_keys d) = parse_doc d. *)
-Theorem C19_keys_partial : forall d, guard_F07b d = true -> parse_doc (retype_keys d) = parse_doc d.
-Proof. exact keys_partial. Qed.
-Print Assumptions C19_keys_partial.
+(* FULL since the fix of F07b (parse_operations passes str(status_code) to parse_response): the same document with its
+   numeric response codes written without quotes (YAML int keys) parses to the same operations *)
+Theorem C19_keys_full : forall d, parse_doc (retype_keys d) = parse_doc d.
+Proof. exact keys_full. Qed.
+Print Assumptions C19_keys_full.
 
-(* exactly what is lost: for a string-keyed document, unquoting drops the operations that declare a numeric
-   response code and changes nothing else (no guard) *)
-Theorem C19_keys_loss : forall d, all_str d = true -> parse_doc (retype_keys d) = filter survives (parse_doc d).
-Proof. exact keys_loss. Qed.
-Print Assumptions C19_keys_loss.
-
-Theorem C19_refuted_F07b :
-  all_str doc_F07b = true /\ guard_F07b doc_F07b = false /\
-  length (parse_doc doc_F07b) = 1%nat /\ parse_doc (retype_keys doc_F07b) = [] /\
-  parse_doc (retype_keys doc_F07b) <> parse_doc doc_F07b.
-Proof. exact refuted_F07b. Qed.
-Print Assumptions C19_refuted_F07b.
+Theorem C19_regression_F07b :
+  all_str doc_F07b = true /\ all_str (retype_keys doc_F07b) = false /\
+  map p_codes (parse_doc (retype_keys doc_F07b)) = [[s_200]] /\
+  parse_doc (retype_keys doc_F07b) = parse_doc doc_F07b.
+Proof. exact regression_F07b. Qed.
+Print Assumptions C19_regression_F07b.
 
 (* the SET of (tag client, method name, signature) is independent of the order of `paths`, for documents
    without method-name collisions (the property's own restriction) *)
@@ -50,7 +44,6 @@ Proof. exact prop_order_full. Qed.
 Print Assumptions C19_prop_order_full.
 
 Theorem C19_guard_nonvacuous :
-  (guard_F07b doc_stable = true /\ length (parse_doc doc_stable) = 1%nat) /\
   (guard_collide (fun s => s) (parse_doc doc_F07b) = true /\
    emitted_methods (fun s => s) (fun s => s) (parse_doc doc_F07b) = [(s_default_tag, s_op, [])]) /\
   (NoDup (map fst demo_props) /\
@@ -58,8 +51,9 @@ Theorem C19_guard_nonvacuous :
    gen_fields demo_san (rev demo_props) = gen_fields demo_san demo_props) /\
   (guard_acyclic graph_F02a = false /\ guard_no_allof_cycle graph_F02a = true /\
    guard_acyclic graph_F02c = false /\ guard_no_allof_cycle graph_F02c = false /\
-   guard_acyclic graph_dag = true /\ guard_no_allof_cycle graph_dag = true).
+   guard_acyclic graph_dag = true /\ guard_no_allof_cycle graph_dag = true) /\
+  forallb (fun n => is_canonical_dec (dec n) && str_eqb (dec (dec_value (dec n) 0)) (dec n) && (dec_value (dec n) 0 =? n)) (upto 1000) = true.
 Proof.
-  exact (conj guard_F07b_nonvacuous (conj guard_collide_nonvacuous (conj prop_order_nonvacuous graph_guards_examples))).
+  exact (conj guard_collide_nonvacuous (conj prop_order_nonvacuous (conj graph_guards_examples dec_roundtrip_0_999))).
 Qed.
 Print Assumptions C19_guard_nonvacuous.
